@@ -95,6 +95,16 @@ func (c *Check) Result(ok bool, rule, construct, fn, site, require, detail strin
 	return ok
 }
 
+// Info records an observation that never fails the check (defensive guards
+// whose removal does not break the property for contract-respecting use).
+func (c *Check) Info(present bool, rule, construct, fn, site, what, detail string) {
+	st := "present"
+	if !present {
+		st = "ABSENT"
+	}
+	c.add(&Obligation{Rule: rule, Construct: construct, Func: fn, Site: site, Require: what, Status: StInfo, Detail: "defensive guard " + st + ": " + detail})
+}
+
 func (c *Check) Note(format string, args ...any) {
 	c.Notes = append(c.Notes, fmt.Sprintf(format, args...))
 }
